@@ -606,6 +606,9 @@ func cmdDrive(args []string) {
 			}
 		}
 	}
+	if *tier == "thorough" {
+		exclude["tier:thorough"] = true // generators use deeper bounds (longer histories, more tasks, larger maps)
+	}
 	var exList []string
 	for e := range exclude {
 		exList = append(exList, e)
